@@ -421,12 +421,6 @@ theorem firstIdx_eq_length_iff (es : List Econf.Entry) (g k : List UInt8) :
       rw [hd] at this; exact absurd this (by simp)
     · omega
 
-theorem selBy_length_mono (p : Econf.Entry → Bool) (es : List Econf.Entry) {i n : Nat} (h : i ≤ n) : (selBy p es i).length ≤ (selBy p es n).length := by
-  obtain ⟨d, rfl⟩ : ∃ d, n = i + d := ⟨n - i, by omega⟩
-  unfold selBy
-  rw [List.range_add, List.filter_append, List.filterMap_append, List.length_append]
-  omega
-
 /-- which entries of the override the inner loop of `merge_existing_groups` copies for group `g` -/
 def mnP (us : List Econf.Entry) (g : List UInt8) (e : Econf.Entry) : Bool := e.group == g && !Econf.defines us g e.key
 
